@@ -55,8 +55,14 @@ def gen(ctx):
         elif k < 0.35:
             base = random_sig(rng, 'abcde', 5)
             cases.append(Merge([mk_desc(remeta(rng, mutate(rng, base)), 100 + j) for j in range(rng.choice([2, 2, 3]))]))
-        elif k < 0.45:
+        elif k < 0.41:
             cases.append(Merge([mk_desc(random_sig(rng, 'abc', 3, meta=True), 100 + j) for j in range(2)]))
+        elif k < 0.45:
+            # three or four inputs that name their positional parameters differently (several renamed
+            # parameters in one step, looked at again by the next step of the fold)
+            pools = ['abc', 'xyc', 'abc', 'bcx']
+            cases.append(Merge([mk_desc(random_sig(rng, pools[j], 3, meta=True), 100 + j)
+                                for j in range(rng.choice([3, 3, 4]))]))
         elif k < 0.65:
             cases.append(Embed([mk_desc(random_sig(rng, 'abc', 3, meta=True), 100),
                                 mk_desc(random_sig(rng, 'def', 3, meta=True), 101)]
@@ -169,11 +175,41 @@ def examine_chain(c, r, ins, out, partial=False):
             out.append(('C10:order', '%s = %s: positional order of %s not kept' % (c.show(), show_sig(r), show_sig(d))))
 
 
+def stepwise_merge(c):
+    """merge(merge(merge(s1, s2), s3), ...) through the public function, one pair at a time; None
+    when a step raises"""
+    acc = c.ds[0]
+    for d in c.ds[1:]:
+        r = Merge([acc, d]).impl()
+        if r[0] != 'ok':
+            return r
+        acc = r[1]
+    return ('ok', acc)
+
+
 def examine(c, i, al_rc, aligned_only=False):
     out = []
     if i[0] != 'ok':
         return out
     r = i[1]
+    if c.op == 'merge' and len(c.ds) >= 3:
+        # the fold law (C09_merge_fold_law, all signatures): the flat n-ary merge and the merge taken
+        # one pair at a time differ only where an intermediate result is rejected; the binary rules
+        # for kind and order, decided above for pairs, therefore carry over to any number of inputs
+        s = stepwise_merge(c)
+        if s[0] == 'err' and s[1] == 'Incompatible':
+            out.append(('C10:kind-nary', '%s = %s, but merging the same inputs one pair at a time raises IncompatibleSignatures '
+                        '(the flat merge kept a parameter in a role one of the pairwise steps rejects)' % (c.show(), show_sig(r))))
+        elif s[0] == 'ok':
+            s = s[1]
+            flat = [(p[0], p[1]) for p in r['params']]
+            step = [(p[0], p[1]) for p in s['params']]
+            pos = lambda l: [x for x in l if x[1] in POSK]
+            if sorted(flat) != sorted(step) or pos(flat) != pos(step):
+                out.append(('C10:kind-nary', '%s = %s, but merging the same inputs one pair at a time gives %s: '
+                            'kind / positional order of %s differ' % (
+                                c.show(), show_sig(r), show_sig(s),
+                                sorted({name_of(x[0]) for x in set(flat) ^ set(step)}) or 'the positional parameters')))
     if c.op == 'merge':
         if al_rc:
             examine_merge(c, r, out)
@@ -198,6 +234,10 @@ def examine(c, i, al_rc, aligned_only=False):
     elif c.op in ('mask', 'partial'):
         src = {p[0]: p for p in c.d['params']}
         bound = dict(c.kw) if c.op == 'partial' else {}
+        # C10_sig_partial_kw: every bound keyword is a keyword-only parameter of the result
+        for nm in bound:
+            if nm not in {p[0] for p in r['params']}:
+                out.append(('C10:partial-kw', '%s = %s: bound keyword %s does not appear in the result' % (c.show(), show_sig(r), name_of(nm))))
         for p in r['params']:
             nm, k, de, an, ua = p
             if nm in bound:
@@ -242,6 +282,23 @@ def run(ctx, rep):
         for key, what in examine(c, i, a == 'T' and r == 'T', aligned_only=(a == 'T')):
             hist[key] = hist.get(key, 0) + 1
             rep.violation(key, what, dict(c.data(), kind='examine', alrc=(a == 'T' and r == 'T'), aligned=(a == 'T')))
+    # the partial rules on REAL functools.partial objects (half of them instances of a partial
+    # subclass whose truth value may be False), retrieved through both entry points
+    from props.c19 import real_partial_result
+    nreal = 0
+    for c, m, i in [x for x in tr if x[0].op == 'partial'][:400 if ctx.quick else 4000]:
+        for auto in (False, True):
+            res, _p = real_partial_result(c.d, c.n, c.kw, auto)
+            nreal += 1
+            if res[0] != 'ok':
+                continue
+            # (real_function builds the function without the described annotations: only the
+            # clauses about the bound keywords are decided on the real object)
+            for key, what in [x for x in examine(c, res, False) if x[0] == 'C10:partial-kw']:
+                hist[key] = hist.get(key, 0) + 1
+                rep.violation(key, '%s(real partial object): %s' % ('sigtools.signature' if auto else 'signatures.signature', what),
+                              dict(c.data(), kind='examine-real', auto=auto))
+    rep.coverage['real_partial_objects'] = nreal
     rep.coverage['finding_histogram'] = hist
     for c, m, i in tr[:5]:
         rep.sample({'case': c.show(), 'impl': show_sig(i[1]) if i[0] == 'ok' else i[1]})
@@ -250,7 +307,12 @@ def run(ctx, rep):
 def replay(ctx, data):
     r = data['replay']
     c = case_from_data(r)
-    res = examine(c, c.impl(), r.get('alrc', False), aligned_only=r.get('aligned', False))
+    if r.get('kind') == 'examine-real':
+        from props.c19 import real_partial_result
+        got, _p = real_partial_result(c.d, c.n, c.kw, r.get('auto', False))
+        res = [x for x in examine(c, got, False) if x[0] == 'C10:partial-kw'] if got[0] == 'ok' else []
+    else:
+        res = examine(c, c.impl(), r.get('alrc', False), aligned_only=r.get('aligned', False))
     res = [x for x in res if x[0] == data['key']] or res
     return res[0][1] if res else None
 
